@@ -1,5 +1,4 @@
-import SciVerif.Drive.Util
+import SciVerif.Drive.C09
 open Lean SciVerif.Drive
 
-/-- C09 model driver: not built yet. -/
-def main : IO Unit := serve (fun _ => throw "C09: no model yet")
+def main : IO Unit := serve SciVerif.C09.Drive.handle
